@@ -30,6 +30,8 @@ pub enum Shape {
     Chain(Vec<u32>),
     /// DynWeighted list
     Dyn(Vec<usize>),
+    /// DynWeighted list that is used (that many selections) after every member added, before it is complete
+    DynGrown(Vec<usize>, u8),
 }
 
 #[derive(Clone, Debug, Serialize, Deserialize)]
@@ -257,28 +259,33 @@ fn sample_shape<G: rand::RngCore>(shape: &Shape, n: u64, rng: &mut G) -> Result<
                 }
             }
         }
-        Shape::Dyn(ws) => {
+        Shape::Dyn(ws) | Shape::DynGrown(ws, _) => {
+            let between = if let Shape::DynGrown(_, u) = shape { u64::from(*u) } else { 0 };
             let weights: Vec<u64> = ws.iter().map(|w| *w as u64).collect();
             let mut counters = Counters::new();
             let mut members: Vec<Sel<R>> = (0..ws.len()).map(|i| build_with::<R>(&Spec::Marker(i), &mut counters).unwrap_or(Sel::Best)).collect();
             members.reverse();
             let Some(first) = members.pop() else { return Ok((vec![], weights, false)) };
+            fn is_zero(e: &ec_core::operator::selector::dyn_weighted::DynWeightedError) -> bool {
+                matches!(e, ec_core::operator::selector::dyn_weighted::DynWeightedError::ZeroWeightSum(rand::seq::WeightError::InsufficientNonZero))
+            }
             let mut d = DynWeighted::new(first, ws[0]);
             let mut i = 1;
-            while let Some(m) = members.pop() {
+            loop {
+                // selections from the list as far as it has been built: members not yet added have no weight
+                let partial: Vec<u64> = weights.iter().enumerate().map(|(j, w)| if j < i { *w } else { 0 }).collect();
+                for _ in 0..between {
+                    let out = one_draw(&d, is_zero, &counters, &pop, rng)?;
+                    judge(&partial, out, "dynamic list while it is being built")?;
+                }
+                let Some(m) = members.pop() else { break };
                 d = d.with_selector(m, ws[i]);
                 i += 1;
             }
             let mut picks = vec![0u64; weights.len()];
             for _ in 0..n {
-                let out = one_draw(
-                    &d,
-                    |e| matches!(e, ec_core::operator::selector::dyn_weighted::DynWeightedError::ZeroWeightSum(rand::seq::WeightError::InsufficientNonZero)),
-                    &counters,
-                    &pop,
-                    rng,
-                )?;
-                if let Some(m) = judge(&weights, out, "dynamic list")? {
+                let out = one_draw(&d, is_zero, &counters, &pop, rng)?;
+                if let Some(m) = judge(&weights, out, if between > 0 { "dynamic list completed after it had been used" } else { "dynamic list" })? {
                     picks[m] += 1;
                 }
             }
@@ -298,8 +305,12 @@ pub fn oracle(c: &Case, probe: &mut Probe) -> Result<(), Fail> {
         Shape::Tree(w) => w.depth(),
         Shape::Chain(w) => w.len().saturating_sub(1),
         Shape::Dyn(_) => 1,
+        Shape::DynGrown(..) => 2,
     };
     probe.nontrivial = weights.len() >= 3 && distinct.len() >= 2 && depth >= 2;
+    if matches!(c.shape, Shape::DynGrown(..)) {
+        probe.label("dynamic list used while it was being built");
+    }
     if rejected {
         probe.label("construction rejected (weight total overflow)");
     }
@@ -346,6 +357,7 @@ fn strategy() -> BoxedStrategy<Case> {
         4 => tree_strategy().prop_map(Shape::Tree),
         3 => prop::collection::vec(weight32(), 2..=5).prop_map(Shape::Chain),
         2 => prop::collection::vec(prop_oneof![3 => Just(0usize), 3 => Just(1usize), 2 => 2usize..12, 1 => Just(1usize << 40)], 1..=6).prop_map(Shape::Dyn),
+        2 => (prop::collection::vec(prop_oneof![3 => Just(0usize), 3 => Just(1usize), 2 => 2usize..12, 1 => Just(1usize << 40)], 2..=6), 1u8..4).prop_map(|(w, u)| Shape::DynGrown(w, u)),
     ];
     (shape, prop::collection::vec(any::<u64>(), 0..16), 1u8..6)
         .prop_map(|(shape, script, draws)| Case { shape, script, draws })
@@ -414,6 +426,7 @@ fn law_jobs(seed: u64) -> Vec<Job> {
             shapes.push(Shape::Chain(ws[..leaves].to_vec()));
         }
         shapes.push(Shape::Dyn(ws.iter().map(|w| *w as usize).collect()));
+        shapes.push(Shape::DynGrown(ws.iter().map(|w| *w as usize).collect(), 1 + (wi % 3) as u8));
     }
     shapes
         .into_iter()
@@ -444,7 +457,7 @@ fn law_jobs(seed: u64) -> Vec<Job> {
 }
 
 pub fn run(ctx: &mut Ctx) {
-    ctx.rule = "marker selectors (member i returns individual i and counts its calls) combined by real WeightedPair trees (all binary shapes up to 5 leaves for the laws, generated shapes up to 8 leaves for the invariants), real with_item_and_weight chains of 2..5 members and DynWeighted lists; weights from {0,1,2..,2^31,u32::MAX-1,u32::MAX} u random. Invariants per selection: exactly one member used, never a weight-0 member, the returned individual is the chosen member's; all-zero => zero-weight error with no member used; construction fails iff a partial sum exceeds u32::MAX (also after an earlier overflow). Laws: member frequencies = w_i / sum(w). non-trivial = >= 3 members, >= 2 distinct positive weights, nesting depth >= 2 (invariants); statistics with 0 < p < 1 (laws)".into();
+    ctx.rule = "marker selectors (member i returns individual i and counts its calls) combined by real WeightedPair trees (all binary shapes up to 5 leaves for the laws, generated shapes up to 8 leaves for the invariants), real with_item_and_weight chains of 2..5 members and DynWeighted lists (also lists that are used for selections while they are still being extended with with_selector); weights from {0,1,2..,2^31,u32::MAX-1,u32::MAX} u random. Invariants per selection: exactly one member used, never a weight-0 member, the returned individual is the chosen member's; all-zero => zero-weight error with no member used; construction fails iff a partial sum exceeds u32::MAX (also after an earlier overflow). Laws: member frequencies = w_i / sum(w). non-trivial = >= 3 members, >= 2 distinct positive weights, nesting depth >= 2 or a list used while being built (invariants); statistics with 0 < p < 1 (laws)".into();
     ctx.assumptions.push("the payload of WeightSumOverflow is not compared".into());
     let (n, trials) = ctx.tier.pick((300_000u32, 400_000u64), (5_000_000, 5_000_000));
     ctx.run_prop("invariants", n, strategy, oracle);
